@@ -204,3 +204,29 @@ fn c19_combine_instances_are_monoids() {
     }
     println!("CASES c19_combine {cases}");
 }
+
+/// building a `VectorMap` from a vector of pairs is the same as inserting the pairs one by one: later pairs overwrite
+/// earlier ones with the same key, and the reported length counts keys, not pairs
+#[test]
+fn c19_vector_map_from_pairs_is_sequential_insertion() {
+    let mut rng = Rng::seeded(1920);
+    let mut cases = 0;
+    for _ in 0..400 {
+        let n = rng.below(12) as usize;
+        let pairs: Vec<(usize, u32)> = (0..n).map(|_| (rng.below(8) as usize, rng.below(1000) as u32)).collect();
+        let model: BTreeMap<usize, u32> = pairs.iter().copied().collect();
+        let mut vm: VectorMap<usize, u32> = VectorMap::from(pairs.clone());
+        cases += 1;
+        let mut bad = vm.len() != model.len() || vm.is_empty() != model.is_empty();
+        for k in 0..10usize { if vm.get(&k) != model.get(&k) { bad = true; } }
+        // removing every key empties it
+        let mut after = vm.len();
+        for k in model.keys() { vm.remove(k); after = vm.len(); }
+        if !model.is_empty() && (after != 0 || !vm.is_empty()) { bad = true; }
+        if bad {
+            witness("C19", "vm.model", format!("VectorMap::from({pairs:?})"), format!("len {} / after removing every key len {after}", VectorMap::<usize, u32>::from(pairs.clone()).len()), format!("the map {model:?} (len {})", model.len()));
+            break;
+        }
+    }
+    println!("CASES c19_from_pairs {cases}");
+}
